@@ -237,10 +237,16 @@ def stereo_mol_graph_to_rdmol(
                 ]
             )
 
-            if neighbors in {p[1:] for p in a_stereo._perm_atoms()}:
-                rd_atom.SetUnsignedProp("_chiralPermutation", 1)
-            else:
-                rd_atom.SetUnsignedProp("_chiralPermutation", 2)
+            # same neighbor orders as used by the importer for SP1, SP2, SP3
+            for label, order in (
+                (1, (0, 1, 2, 3)),
+                (2, (0, 2, 1, 3)),
+                (3, (0, 1, 3, 2)),
+            ):
+                ordered = tuple([neighbors[i] for i in order])
+                if ordered in {p[1:] for p in a_stereo._perm_atoms()}:
+                    rd_atom.SetUnsignedProp("_chiralPermutation", label)
+                    break
 
         elif a_stereo is not None and isinstance(
             a_stereo, TrigonalBipyramidal
